@@ -27,7 +27,7 @@ Definition invb (s : BroCatli) : bool :=
   (negb (last_byte_sanitized s) ||
      ((last_bytes_len s <=? 1) && ((last_bytes_len s =? 0) || (lb0 s <? 2 ^ last_byte_bit_offset s)))) &&
   match new_stream_pending s with
-  | None => true
+  | None => negb (last_byte_sanitized s)
   | Some p => nsd_invb (window_size s) (last_byte_sanitized s) p
   end.
 
@@ -129,12 +129,12 @@ Definition wbits_field (w : N) : list bool :=
 Fixpoint strip_zeros (r : list bool) : list bool :=     (* r = reversed bits *)
   match r with false :: t => strip_zeros t | _ => r end.
 Definition strip_end_marker (bits : list bool) : option (list bool) :=
-  match rev bits with
+  match rev_append bits [] with                                     (* linear-time reversal *)
   | [] => None
   | r =>
     if negb (existsb (fun b => b) (firstn 8 r)) then None else       (* last byte is zero *)
     match strip_zeros r with
-    | true :: true :: t => Some (rev t)
+    | true :: true :: t => Some (rev_append t [])
     | _ => None
     end
   end.
